@@ -784,15 +784,17 @@ def gen(rng, idx):
     scn = {'prop': PROP, 'world': world, 'ops': ops, 'faults': {}, 'cfg': {'mode': mode}}
     if mode == 'noport':
         return scn
-    huge = any(fn in ('doTimedPause', 'timed_pause') and a and isinstance(a[0], int) and a[0] > 200000
-               for g in reqs for (_l, fn, a, _k) in g)
-    if huge:
-        scn['io_cap'] = 200000
-    recs, _ = discover(scn)
-    faults = {'io': [], 'reply': []}
+    pause_ms = sum(a[0] for g in reqs for (_l, fn, a, _k) in g
+                   if fn in ('doTimedPause', 'timed_pause') and a and isinstance(a[0], int) and a[0] > 0)
+    huge = pause_ms > 20000
     lat = rng.choice(['prompt', 'prompt', 'slow', 'edge'])
     if huge:
         lat = 'prompt'          # a thousand commands, each waited for a hundred reads, is only more of the same
+    # the I/O cap is a safety net against endless loops, not a judgement on how finely a pause may be chopped:
+    # room for one command per millisecond, each waited for through the whole retry budget when replies are slow
+    scn['io_cap'] = 50000 + 2 * pause_ms * (1 if lat == 'prompt' else 102)
+    recs, _ = discover(scn)
+    faults = {'io': [], 'reply': []}
     for op in ops:
         if op['op'] not in ('call', 'lcall') or op.get('m') == 'connect':
             continue
@@ -939,7 +941,9 @@ def sweep_expand(cell):
     step = 1 if kind == 'men' else 12
     for s in range(0, len(groups), step):
         world = make_world(rng, fw_l=[2, 8, 1], prior=pr)
-        yield {'prop': PROP, 'world': world, 'ops': build(world, groups[s:s + step]), 'faults': {}, 'io_cap': 200000}
+        cap = 50000 + 2 * sum(a[0] for g in groups[s:s + step] for (_l, fn, a, _k) in g
+                              if fn in ('doTimedPause', 'timed_pause') and isinstance(a[0], int) and a[0] > 0)
+        yield {'prop': PROP, 'world': world, 'ops': build(world, groups[s:s + step]), 'faults': {}, 'io_cap': cap}
     # no-port variants of the same requests
     for s in range(0, len(groups), 40):
         world = make_world(rng, fw_l=[2, 8, 1], prior=pr)
